@@ -38,6 +38,7 @@ def run_case(case, mods):
     lines = case['ops']
     out = [None] * (len(lines) + 1)
     pending = []
+    ticks = []
 
     def snap(clock):
         return ' | ' + ' '.join(fr(v) for v in (
@@ -128,6 +129,17 @@ def run_case(case, mods):
                 except Exception as e:          # mapped to the class name
                     res = f'E:{type(e).__name__}'
                 out[i] = res + snap(clock)
+        tk = case.get('ticker')
+        if tk:
+            # an independent routine on the same clock: wakes every `d` beats, `n` times, and reads the beat
+            d, n = pf(tk['d']), tk['n']
+
+            @routine
+            def ticker():
+                for _ in range(n):
+                    ticks.append(fr(clock.beats))
+                    yield d
+            ticker.play(clock, 0)
         inner.play(clock, 0)            # quant 0: start at the current beat (the default Quant is 1)
 
     outer.play()
@@ -138,6 +150,8 @@ def run_case(case, mods):
     for i, o in enumerate(out):
         if o is None:
             out[i] = 'none'
+    if case.get('ticker'):
+        out.append('ticks ' + ' '.join(ticks))
     return out
 
 
